@@ -268,6 +268,7 @@ func (e *Engine) verifyFunc(name string, forceSafety bool) (res *FuncResult) {
 		}
 	}
 	f.run("true")
+	sc.curBlk = nil
 	vc.siteClauseCoverage(fn)
 	if vc.contract != nil && len(f.rets) > 0 && len(vc.contract.Ensures) > 0 {
 		// (only meaningful when there are postconditions that an unreachable return would make vacuous)
